@@ -12,11 +12,15 @@
 #include <sys/socket.h>
 #include <sys/epoll.h>
 #include <sys/eventfd.h>
+#include <netdb.h>
+#include <netinet/in.h>
+#include <pthread.h>
 
 namespace netshim {
 
 Hooks hooks = {0, 0, 0, 0, 0, 0, 0, 0};
 volatile int mode = REAL;
+int (*volatile resolveHook)(const char* node, uint32_t* addrHostOrder) = 0;
 
 enum { MAXFD = 8192 };
 static int g_tag[MAXFD];            // tag + 1, 0 = not registered
@@ -25,7 +29,7 @@ static unsigned char g_inset[MAXFD];
 static int64_t g_vnow = 0;
 static const int64_t BASE_MS = 1000000;   // virtual CLOCK_MONOTONIC origin (a little over 16 minutes of "uptime")
 static int g_lastEventFd = -1, g_lastEpollFd = -1;
-static long g_nSend = 0, g_nRecv = 0, g_nWait = 0, g_nClock = 0, g_nCtl = 0;
+static long g_nSend = 0, g_nRecv = 0, g_nWait = 0, g_nClock = 0, g_nCtl = 0, g_nResolve = 0;
 
 typedef ssize_t (*send_t)(int, const void*, size_t, int);
 typedef ssize_t (*recv_t)(int, void*, size_t, int);
@@ -34,6 +38,13 @@ typedef int (*epoll_ctl_t)(int, int, int, struct epoll_event*);
 typedef int (*eventfd_t)(unsigned int, int);
 typedef int (*epoll_create1_t)(int);
 typedef int (*clock_gettime_t)(clockid_t, struct timespec*);
+typedef int (*getaddrinfo_t)(const char*, const char*, const struct addrinfo*, struct addrinfo**);
+typedef void (*freeaddrinfo_t)(struct addrinfo*);
+static getaddrinfo_t r_getaddrinfo = 0; static freeaddrinfo_t r_freeaddrinfo = 0;
+// results made by the getaddrinfo shim (freed by the freeaddrinfo shim, everything else goes to libc); called from the library's resolver threads
+enum { MAXOWN = 64 };
+static struct addrinfo* g_own[MAXOWN];
+static pthread_mutex_t g_ownMutex = PTHREAD_MUTEX_INITIALIZER;
 static send_t r_send = 0; static recv_t r_recv = 0; static epoll_wait_t r_epoll_wait = 0; static epoll_ctl_t r_epoll_ctl = 0;
 static eventfd_t r_eventfd = 0; static epoll_create1_t r_epoll_create1 = 0; static clock_gettime_t r_clock_gettime = 0;
 
@@ -67,6 +78,7 @@ long nRecv() { return __atomic_load_n(&g_nRecv, __ATOMIC_RELAXED); }
 long nWait() { return __atomic_load_n(&g_nWait, __ATOMIC_RELAXED); }
 long nClock() { return __atomic_load_n(&g_nClock, __ATOMIC_RELAXED); }
 long nCtl() { return __atomic_load_n(&g_nCtl, __ATOMIC_RELAXED); }
+long nResolve() { return __atomic_load_n(&g_nResolve, __ATOMIC_RELAXED); }
 
 long realSend(int fd, const void* buf, size_t len, int flags) { return resolve(r_send, "send")(fd, buf, len, flags); }
 long realRecv(int fd, void* buf, size_t len, int flags) { return resolve(r_recv, "recv")(fd, buf, len, flags); }
@@ -174,6 +186,38 @@ int epoll_create1(int flags) noexcept {
   int fd = resolve(r_epoll_create1, "epoll_create1")(flags);
   g_lastEpollFd = fd;
   return fd;
+}
+
+int getaddrinfo(const char* node, const char* service, const struct addrinfo* hints, struct addrinfo** res) {
+  getaddrinfo_t real = resolve(r_getaddrinfo, "getaddrinfo");
+  int (*hook)(const char*, uint32_t*) = resolveHook;
+  if (!hook || !node) return real(node, service, hints, res);
+  uint32_t addr = 0;
+  int rc = hook(node, &addr);
+  if (rc == RESOLVE_PASS) return real(node, service, hints, res);
+  __atomic_fetch_add(&g_nResolve, 1, __ATOMIC_RELAXED);
+  if (rc != 0) return rc;
+  // one exactly-sized block per result: addrinfo followed by its sockaddr_in
+  struct addrinfo* ai = (struct addrinfo*)calloc(1, sizeof(struct addrinfo) + sizeof(struct sockaddr_in));
+  if (!ai) return EAI_MEMORY;
+  struct sockaddr_in* sin = (struct sockaddr_in*)(ai + 1);
+  sin->sin_family = AF_INET; sin->sin_addr.s_addr = htonl(addr);
+  ai->ai_family = AF_INET; ai->ai_socktype = hints && hints->ai_socktype ? hints->ai_socktype : SOCK_STREAM; ai->ai_protocol = hints ? hints->ai_protocol : 0;
+  ai->ai_addrlen = sizeof(struct sockaddr_in); ai->ai_addr = (struct sockaddr*)sin;
+  pthread_mutex_lock(&g_ownMutex);
+  int slot = -1; for (int i = 0; i < MAXOWN; ++i) if (!g_own[i]) { g_own[i] = ai; slot = i; break; }
+  pthread_mutex_unlock(&g_ownMutex);
+  if (slot < 0) { free(ai); return EAI_MEMORY; }
+  *res = ai;
+  return 0;
+}
+
+void freeaddrinfo(struct addrinfo* ai) noexcept {
+  bool own = false;
+  pthread_mutex_lock(&g_ownMutex);
+  for (int i = 0; i < MAXOWN; ++i) if (ai && g_own[i] == ai) { g_own[i] = 0; own = true; break; }
+  pthread_mutex_unlock(&g_ownMutex);
+  if (own) free(ai); else resolve(r_freeaddrinfo, "freeaddrinfo")(ai);
 }
 
 int clock_gettime(clockid_t id, struct timespec* ts) noexcept {
